@@ -176,7 +176,7 @@ theorem takeWhile_append_stop {p : UInt8 → Bool} (t rest : Bytes) (ht : t.all 
     simp [ht.1, ih ht.2]
 
 /-- a valid identifier followed by a non-identifier byte is read back as one `field` token -/
-theorem lexAll_field (c rest : Bytes) (hc : validIdent c = true)
+theorem lexAll_identField (c rest : Bytes) (hc : validIdent c = true)
     (hr : ∀ x r, rest = x :: r → isFieldChar x = false) :
     lexAll (c ++ rest) = .field c :: lexAll rest := by
   cases c with
@@ -251,10 +251,10 @@ theorem lexOK_leaf (c v : Bytes) (ph : Nat) (hc : validIdent c = true) :
   simp only [fmtExpr, toksE, leafTok]
   split
   · simp only [List.append_assoc, List.cons_append, List.nil_append]
-    rw [lexAll_field c _ hc (by intro x r hx; cases hx; decide), lexAll_space, lexAll_eq, lexAll_space,
+    rw [lexAll_identField c _ hc (by intro x r hx; cases hx; decide), lexAll_space, lexAll_eq, lexAll_space,
       ← List.cons_append, lexAll_placeholder _ _ (List.all_eq_true.mpr (natDigits_all_digit ph)) hr.notDigit]
   · simp only [List.append_assoc, List.cons_append, List.nil_append]
-    rw [lexAll_field c _ hc (by intro x r hx; cases hx; decide), lexAll_space, lexAll_eq, lexAll_space,
+    rw [lexAll_identField c _ hc (by intro x r hx; cases hx; decide), lexAll_space, lexAll_eq, lexAll_space,
       lexAll_value _ _ hr.notQuote]
 
 theorem lexOK_not (e : PExpr) (h : LexOK (fmtExpr e) (toksE e)) :
@@ -316,13 +316,13 @@ theorem lexAll_joinFields (fs : List Bytes) (h : ∀ f ∈ fs, validIdent f = tr
   | cons f fs ih =>
     cases fs with
     | nil =>
-      have := lexAll_field f [] (h f List.mem_cons_self) (by intro x r hx; cases hx)
+      have := lexAll_identField f [] (h f List.mem_cons_self) (by intro x r hx; cases hx)
       simpa [joinFields, toksFields, lexAll_nil] using this
     | cons f' fs =>
       have ih' := ih (fun g hg => h g (List.mem_cons_of_mem _ hg))
       rw [joinFields, toksFields]
       · simp only [List.append_assoc, List.cons_append, List.nil_append]
-        rw [lexAll_field f _ (h f List.mem_cons_self) (by intro x r hx; cases hx; decide),
+        rw [lexAll_identField f _ (h f List.mem_cons_self) (by intro x r hx; cases hx; decide),
           lexAll_comma, lexAll_space, ih']
       · simp
       · simp
